@@ -21,6 +21,10 @@ macro_rules! with_n {
             3 => $f::<_, 3>($($args),*),
             4 => $f::<_, 4>($($args),*),
             5 => $f::<_, 5>($($args),*),
+            7 => $f::<_, 7>($($args),*),
+            13 => $f::<_, 13>($($args),*),
+            16 => $f::<_, 16>($($args),*),
+            64 => $f::<_, 64>($($args),*),
             _ => unreachable!(),
         }
     };
@@ -95,9 +99,27 @@ fn one<T>(base: &[T], x: Option<&T>) -> String {
 
 fn run_type<T: Clone + std::panic::RefUnwindSafe>(elem: &str, mk: &dyn Fn(usize) -> T, max_len: usize, out: &mut Out) {
     for len in 0..=max_len {
+        run_len(elem, mk, len, indices(len), &[0, 1, 2, 3, 4, 5], out);
+    }
+}
+
+/// seeded stream of LARGE slices: lengths up to 600, a few random indices each (plus the huge ones),
+/// chunk/array sizes up to 64 — the exhaustive part above stops at small lengths
+fn run_random<T: Clone + std::panic::RefUnwindSafe>(elem: &str, mk: &dyn Fn(usize) -> T, cases: usize, rng: &mut Rng, out: &mut Out) {
+    for _ in 0..cases {
+        let len = 9 + rng.below(592) as usize;
+        let mut idx: Vec<usize> = (0..3).map(|_| rng.below(len as u64 + 3) as usize).collect();
+        idx.push(len);
+        idx.push([isize::MAX as usize, usize::MAX, len + 1][rng.below(3) as usize]);
+        let ns = [[7usize, 13], [16, 64], [5, 64], [13, 16]][rng.below(4) as usize];
+        run_len(elem, mk, len, idx, &ns, out);
+    }
+}
+
+fn run_len<T: Clone + std::panic::RefUnwindSafe>(elem: &str, mk: &dyn Fn(usize) -> T, len: usize, idx: Vec<usize>, ns: &[usize], out: &mut Out) {
+    {
         let v: Vec<T> = (0..len).map(|i| mk(i)).collect();
         let s: &[T] = &v;
-        let idx = indices(len);
         for &i in &idx {
             out.emit(&format!("s.get {} {} {}", elem, len, i), &catch(|| one(s, ks::get(s, i))), &one(s, s.get(i)), true);
             out.emit(&format!("s.get_from {} {} {}", elem, len, i), &catch(|| opt_view(s, ks::get_from(s, i))), &opt_view(s, s.get(i..)), true);
@@ -173,7 +195,7 @@ fn run_type<T: Clone + std::panic::RefUnwindSafe>(elem: &str, mk: &dyn Fn(usize)
             let ora = match s.split_last() { None => "none".to_string(), Some((f, r)) => pair(view(s, core::slice::from_ref(f)), view(s, r)) };
             out.emit(&format!("s.split_last.mut {} {}", elem, len), &imp, &ora, true);
         }
-        for n in 0..=5usize {
+        for &n in ns {
             with_n!(n, try_into_array_n, s, out, elem);
             with_n!(n, try_into_array_mut_n, s, out, elem);
             with_n!(n, as_chunks_n, s, out, elem);
@@ -181,8 +203,13 @@ fn run_type<T: Clone + std::panic::RefUnwindSafe>(elem: &str, mk: &dyn Fn(usize)
     }
 }
 
-pub fn run(tier: &str, _seed: u64, out: &mut Out) {
+pub fn run(tier: &str, seed: u64, out: &mut Out) {
     let max_len = if tier == "thorough" { 16 } else { 8 };
+    let mut rng = Rng(seed ^ 0xC02);
+    let cases = if tier == "thorough" { 1500 } else { 250 };
+    run_random::<u8>("u8", &|i| i as u8, cases, &mut rng, out);
+    run_random::<()>("zst", &|_| (), cases / 4, &mut rng, out);
+    run_random::<[u16; 3]>("u16x3", &|i| [i as u16; 3], cases / 4, &mut rng, out);
     run_type::<u8>("u8", &|i| i as u8, max_len, out);
     run_type::<()>("zst", &|_| (), max_len, out);
     run_type::<String>("string", &|i| format!("s{}", i), max_len.min(10), out);
